@@ -243,7 +243,8 @@ func classify(class, detail string, m map[string]any) string {
 			return "klv-multi-item-fragmented"
 		}
 	case "returned-frame-altered":
-		// the only buffer the decoder owns is d.buffer, which it returns and then reuses (F3)
+		// the only buffer the decoder owns is d.buffer; returning it and then reusing it was finding F3
+		// (fixed by /repo 5cc6a94): the class stays, so a regression is reported as a violation
 		return "klv-returned-buffer-reused"
 	case "retained-bytes":
 		if detail == "endless-continuation-packets" {
@@ -420,7 +421,8 @@ func corrEncodeTS(ctx *hx.Ctx, max int, seq uint16, units [][]byte, groups [][]*
 	corrEncode(ctx, max, seq, units, g2)
 }
 
-// F3: the unit returned for packet 1 is overwritten by the Decode call for packet 2.
+// F3 (fixed by /repo 5cc6a94, kept as a regression case): the unit returned for packet 1 must not be
+// overwritten by the Decode call for packet 2.
 func probeBufferReuse(ctx *hx.Ctx) {
 	a, b := singleItem(0xAA, 8), singleItem(0xBB, 8)
 	pkts := []*rtp.Packet{
